@@ -232,6 +232,11 @@ const (
 // candidate actually fails that (skipped) test, so the result is a signature in which
 // everything is consistent except that one signing-side condition. It returns the packed
 // signature, the iteration (nonce) used and the exact norms of the accepted candidate.
+// VerifSignAlterC, when set, may change the challenge seed of VerifSignSkipping after it was
+// hashed and before the challenge polynomial, z and the hints are derived from it: a signer that
+// holds the key and deviates from the scheme in that one place.
+var VerifSignAlterC func(c *[SeedBytes]uint8)
+
 func VerifSignSkipping(m []uint8, sk *[CryptoSecretKeyBytes]uint8, skip int, maxIter int) (sig [CryptoBytes]uint8, iter int, maxZ, maxW0, maxCt0 int32, hints uint, ok bool) {
 	var rho, key, tr [SeedBytes]uint8
 	var mu, rhoPrime [CRHBytes]uint8
@@ -283,6 +288,9 @@ func VerifSignSkipping(m []uint8, sk *[CryptoSecretKeyBytes]uint8, skip int, max
 		st.Write(mu[:])
 		st.Write(buf[:])
 		st.Read(c[:])
+		if VerifSignAlterC != nil {
+			VerifSignAlterC(&c)
+		}
 		polyChallenge(&cp, c[:])
 		polyNTT(&cp)
 
